@@ -102,8 +102,15 @@ def install(world):
         label = '%s:%d' % (host, port)
         world.log(ev='begin', target=label, dirty2=_dirty(SSH2_KexDB), dirty1=_dirty(SSH1_KexDB),
                   shared_policy_errors=len(pol._errors) if pol is not None else 0)
+        sched = getattr(world, 'sched', None)
+        if sched is not None:
+            sched.register(label)
         try:
-            ret = orig_worker(host, port, shared_aconf)
+            try:
+                ret = orig_worker(host, port, shared_aconf)
+            finally:
+                if sched is not None:
+                    sched.deregister(label)
         except BaseException as e:
             world.log(ev='end', target=label, ret='BaseException:%s' % type(e).__name__, dirty2=_dirty(SSH2_KexDB), dirty1=_dirty(SSH1_KexDB),
                       shared_policy_errors=len(pol._errors) if pol is not None else 0)
